@@ -1,5 +1,2 @@
-From Coq Require Import QArith List.
-From PV Require Import Lib.WLS C13.LinAlg C15.Model.
-Open Scope Q_scope.
-Lemma dof_spec0 : forall sq n, cc_dof sq n = (Z.of_nat (length (filter (fun s => Qlt_bool 0 s) sq)) - Z.of_nat n)%Z.
-Proof. reflexivity. Qed.
+(* C15: all proofs (re-exported); see Chi2Proofs, HmfProofs, HmfProofs2, SpectralProofs (and C13/LinAlgProofs). *)
+From PV Require Export C13.LinAlgProofs C15.Chi2Proofs C15.HmfProofs C15.HmfProofs2 C15.SpectralProofs.
